@@ -7,3 +7,11 @@ def c06_a(R, ctx):
 
 def c08_c(R, ctx):
     pass
+
+
+def c13_b(R, ctx):
+    pass
+
+
+def c13_d(R, ctx):
+    pass
